@@ -282,7 +282,8 @@ def build(prog, ntags=0, stream_kwargs=None, sink_factory=None):
             args = list(U)
             for pos, val in nd["lits"]:
                 args.insert(pos, dec(val))
-            s = streamz.zip(*args)
+            # (m > 0: zip(maxsize=m) -- the bound only holds producers back, it never changes what is delivered)
+            s = streamz.zip(*args, maxsize=nd["m"]) if nd.get("m") else streamz.zip(*args)
         elif k == "combine_latest":
             kw = {}
             if sorted(nd["eon"]) != list(range(1, len(nd["ups"]) + 1)):
